@@ -23,6 +23,13 @@ mod c16;
 mod shape_corr;
 mod lists_corr;
 mod strings_corr;
+mod macros_corr;
+mod missed_corr;
+mod optin_corr;
+mod vertical_corr;
+mod optin_inproc;
+mod optin_e2e;
+mod budgets_corr;
 mod corpus;
 mod gen;
 mod sweep;
@@ -97,6 +104,14 @@ fn main() {
         "c13api" => c13::api_main(&args[2..]),
         "c18" => c18::run(&tier, seed, &out),
         "strings" => strings_corr::run(&tier, seed, &out),
+        "macros" => macros_corr::run(&tier, seed, &out),
+        "missed" => missed_corr::run(&tier, seed, &out),
+        "missed-width" => missed_corr::width_probe(),
+        "missed-c03" | "missed-c08" | "missed-c16" | "missed-c02" => missed_corr::run_part(&prop[7..], &tier, seed, &out),
+        "optin" => optin_corr::run(&tier, seed, &out),
+        "vertical" => vertical_corr::run(&tier, seed, &out),
+        "budgets" => budgets_corr::run(&tier, seed, &out),
+        "optin-dump" => optin_corr::dump(&args[2], args.get(3)),
         "boundary" => boundary::main(&args[2..]),
         "c03" => c03::run(&tier, seed, &out),
         "lists" => lists_corr::run(&tier, seed, &out),
